@@ -5,5 +5,7 @@ set -e
 d="$1"
 git -C /repo worktree add --detach "$d" HEAD >/dev/null 2>&1
 rsync -a --exclude .git /repo/ "$d"/
+# the worktree must be HEAD: drop uncommitted changes of tracked files that the copy brought along
+git -C "$d" checkout -- . >/dev/null 2>&1 || true
 # make the copied objects look up to date relative to sources, but keep sources newer than nothing
 echo "$d"
